@@ -33,6 +33,13 @@ OPESAD = cv("x", 1, GRIDCV) + ("opes_metad {\n  name o\n  colvars x\n  newHillFr
                                "  adaptiveSigmaStride 4\n}\n")
 OPESPMF = cv("x", 1, GRIDCV) + ("opes_metad {\n  name o\n  colvars x\n  newHillFrequency 2\n  barrier 10\n  gaussianSigma 0.5\n"
                                 "  pmf on\n  pmfColvars x\n  pmfHistoryFrequency 2\n}\n")
+SCRIPTED = ("colvar {\n  name s\n  scriptedFunction f\n  scriptedFunctionType vector\n  scriptedFunctionVectorSize 3\n"
+            "  distanceZ {\n    main { atomNumbers 1 }\n    ref { dummyAtom (0,0,0) }\n    axis (0,0,1)\n  }\n}\n")
+OPESREP = cv("x", 1, GRIDCV) + ("opes_metad {\n  name o\n  colvars x\n  newHillFrequency 2\n  barrier 10\n  gaussianSigma 0.5\n"
+                                "  multipleReplicas on\n  replicaID a\n  neighborList on\n  sharedFreq 2\n}\n")
+NNET = ("colvar {\n  name nn\n  neuralNetwork {\n    output_component 1\n    layer1_WeightsFile w.txt\n    layer1_BiasesFile b.txt\n"
+        "    layer1_activation tanh\n    distanceZ {\n      main { atomNumbers 1 }\n      ref { dummyAtom (0,0,0) }\n      axis (0,0,1)\n    }\n  }\n}\n")
+NNET_FILES = {"w.txt": "0.5\n0.25\n", "b.txt": "0.0\n0.1\n"}
 CVTSF = cv("x", 1, "  timeStepFactor 2\n") + "harmonic {\n  name r\n  colvars x\n  centers 1.0\n  forceConstant 2.0\n  timeStepFactor 2\n}\n"
 COORD = ("colvar {\n  name c\n  coordNum {\n    cutoff 4.0\n    tolerance 0.001\n    pairListFrequency 2\n"
          "    group1 { atomNumbers 1 2 }\n    group2 { atomNumbers 3 4 }\n  }\n}\n")
@@ -77,6 +84,10 @@ ENTRIES = [
     ("opesad.adaptiveSigmaStride", OPESAD, ["opes_metad"], "adaptiveSigmaStride", 3),
     ("opes.pmfHistoryFrequency", OPESPMF, ["opes_metad"], "pmfHistoryFrequency", 3),
     ("opes.printTrajectoryFrequency", OPES, ["opes_metad"], "printTrajectoryFrequency", 3),
+    ("colvar.scriptedFunctionVectorSize", SCRIPTED, ["colvar"], "scriptedFunctionVectorSize", 3),
+    ("opesrep.sharedFreq", OPESREP, ["opes_metad"], "sharedFreq", 3),
+    ("opesreprof0.sharedFreq", OPESREP.replace("  sharedFreq 2\n", ""), ["opes_metad"], "sharedFreq", 0),
+    ("nnet.output_component", NNET, ["colvar", "neuralnetwork"], "output_component", 3, NNET_FILES),
 ]
 
 BY_ID = dict((e[0], e) for e in ENTRIES)
@@ -90,7 +101,8 @@ ZS = [(1.0, 1.5, 2.0, 0.5), (1.25, 1.5, 2.5, 0.75), (2.75, 0.5, 2.0, 1.0), (3.5,
       (4.5, 2.0, 3.0, 0.25), (-0.5, 2.5, 3.5, 1.5), (1.75, 3.0, 0.5, 2.0), (2.0, 3.5, 1.5, 0.5)]
 
 
-def scenario(conf, restartfreq=3, nsteps=8, base=True, log=None, temperature=300, base2=False):
+def scenario(conf, restartfreq=3, nsteps=8, base=True, log=None, temperature=300, base2=False, late=0):
+    """late = k > 0: the configuration under test is supplied after k steps (run-time `cv config`)"""
     S = ["natoms 4", "prefix out", "restartfreq %d" % restartfreq, "temperature %g" % temperature, "new"]
     if log:
         S.append("log " + log)
@@ -98,9 +110,11 @@ def scenario(conf, restartfreq=3, nsteps=8, base=True, log=None, temperature=300
         S.append("pos %d %g %g %g" % (a + 1, 0.25 * a, 0.5 * a, ZS[0][a]))
     if base:
         S += ["config EOF", BASE + (BASE2 if base2 else "") + "EOF", "objs"]
-    if conf is not None:
+    if conf is not None and not late:
         S += ["config EOF", conf.rstrip("\n"), "EOF", "objs"]
     for k in range(nsteps):
+        if conf is not None and late and k == late:
+            S += ["config EOF", conf.rstrip("\n"), "EOF", "objs"]
         for a in range(4):
             S.append("pos %d %g %g %g" % (a + 1, 0.25 * a, 0.5 * a, ZS[k % len(ZS)][a]))
         S.append("step")
@@ -152,6 +166,12 @@ MODEL = {
     "opesad.adaptiveSigmaStride": ("opes", dict(_R, tf="1", pace="2", rof2="3", adaptive="on", adstride="4"), "adstride"),
     "opes.pmfHistoryFrequency": ("opes", dict(_R, tf="1", pace="2", rof2="3", pmf="on", pmfhist="2"), "pmfhist"),
     "opes.printTrajectoryFrequency": ("opes", dict(_R, tf="1", pace="2", rof2="3"), "trajfreq"),
+    # (the simulator has no scripting: an accepted scripted function reports an error at every step, which is not a death)
+    "colvar.scriptedFunctionVectorSize": ("scripted", dict(size="3"), "size"),
+    "opesrep.sharedFreq": ("opes", dict(_R, tf="1", pace="2", rof2="3", replicas="on", nlist="on", shared="2"), "shared"),
+    "opesreprof0.sharedFreq": ("opes", dict(rof="0", tf="1", pace="2", rof2="0", replicas="on", nlist="on"), "shared"),
+    # two output nodes: the model of this entry is the bound itself (python, see check.py)
+    "nnet.output_component": ("nnet", dict(index="1", outputs="2"), "index"),
 }
 ENTRIES = [e for e in ENTRIES if e[0] in MODEL]
 BY_ID = dict((e[0], e) for e in ENTRIES)
@@ -177,3 +197,76 @@ def hist_grid_config(dims):
     s += ("histogram {\n  name h\n  colvars %s\n  outputFreq 2\n  histogramGrid {\n    width %s\n    lowerBoundary %s\n    upperBoundary %s\n  }\n}\n"
           % (" ".join(names), " ".join(d[2] for d in dims), " ".join(d[0] for d in dims), " ".join(d[1] for d in dims)))
     return s
+
+
+# ------------------------------------------------------------------------------------------------
+# structural cases of the property text (empty or overlapping groups, mismatched list lengths, non-existent atoms or
+# files, multiple-walker keywords, remaining numeric keywords): (label, configuration, expected verdict or None)
+# ------------------------------------------------------------------------------------------------
+def _grp(body, cvc="distanceZ", extra="    ref { dummyAtom (0,0,0) }\n    axis (0,0,1)\n", key="main"):
+    return "colvar {\n  name s\n  %s {\n    %s {\n%s    }\n%s  }\n}\n" % (cvc, key, body, extra)
+
+_DIST = lambda g1, g2: "colvar {\n  name s\n  distance {\n    group1 { %s }\n    group2 { %s }\n  }\n}\n" % (g1, g2)
+_OPESK = lambda kv: cv("x", 1, GRIDCV) + "opes_metad {\n  name o\n  colvars x\n  newHillFrequency 2\n  barrier 10\n  gaussianSigma 0.5\n  %s\n}\n" % kv
+_ABFK = lambda kv: cv("x", 1, GRIDCV, "    oneSiteTotalForce on\n") + "abf {\n  name a\n  colvars x\n  fullSamples 2\n  %s\n}\n" % kv
+_METAK = lambda kv: cv("x", 1, GRIDCV) + "metadynamics {\n  name m\n  colvars x\n  hillWeight 0.1\n  hillWidth 2\n  newHillFrequency 2\n  %s\n}\n" % kv
+_HARMK = lambda kv: cv("x", 1) + "harmonic {\n  name r\n  colvars x\n  %s\n}\n" % kv
+
+STRUCTURAL = [
+    ("group:huge-range", _grp("      atomNumbersRange 1-2147483647\n"), "reject"),
+    ("group:reversed-range", _grp("      atomNumbersRange 3-1\n"), "reject"),
+    ("group:negative-range", _grp("      atomNumbersRange -5-2\n"), "reject"),
+    ("group:empty-numbers", _grp("      atomNumbers\n"), "reject"),
+    ("group:empty-block", "colvar {\n  name s\n  distanceZ {\n    main { }\n    ref { dummyAtom (0,0,0) }\n    axis (0,0,1)\n  }\n}\n", "reject"),
+    ("group:missing", "colvar {\n  name s\n  distanceZ {\n    ref { dummyAtom (0,0,0) }\n    axis (0,0,1)\n  }\n}\n", "reject"),
+    ("group:duplicates", _grp("      atomNumbers 1 1 1\n"), None),
+    ("group:nonexistent-atom", _grp("      atomNumbers 1000\n"), "reject"),
+    ("group:atom-zero", _grp("      atomNumbers 0\n"), "reject"),
+    ("group:no-such-index-group", _grp("      indexGroup nosuch\n"), "reject"),
+    ("group:no-such-atoms-file", _grp("      atomsFile nosuch.pdb\n"), "reject"),
+    ("group:overlapping", _DIST("atomNumbers 1 2", "atomNumbers 2 3"), None),
+    ("group:identical", _DIST("atomNumbers 1", "atomNumbers 1"), None),
+    ("file:no-such-index-file", "indexFile nosuch.ndx\n" + cv("s", 1), "reject"),
+    ("file:no-such-refpositions", "colvar {\n  name s\n  rmsd {\n    atoms { atomNumbers 1 2 3 }\n    refPositionsFile nosuch.xyz\n  }\n}\n", "reject"),
+    ("file:refpositions-wrong-count", "colvar {\n  name s\n  rmsd {\n    atoms { atomNumbers 1 2 3 }\n    refPositions (0,0,0) (1,1,1)\n  }\n}\n", "reject"),
+    ("file:abf-inputprefix", _ABFK("inputPrefix nosuch"), "reject"),
+    ("file:histrestr-refhistogramfile", HRES.replace("  refHistogram 0.125 0.125 0.125 0.125 0.125 0.125 0.125 0.125\n", "  refHistogramFile nosuch.dat\n"), "reject"),
+    ("file:ebmeta-targetdist", _METAK("ebMeta on\n  targetDistFile nosuch.dat"), "reject"),
+    ("list:too-many-centers", _HARMK("centers 1 2\n  forceConstant 1"), "reject"),
+    ("list:no-centers", _HARMK("forceConstant 1"), "reject"),
+    ("list:unknown-colvar", "harmonic {\n  name r\n  colvars nosuch\n  centers 1\n}\n", "reject"),
+    ("list:no-colvars", "harmonic {\n  name r\n  centers 1\n}\n", "reject"),
+    ("list:walls-mismatch", cv("x", 1) + "harmonicWalls {\n  name w\n  colvars x\n  lowerWalls 1 2\n  upperWalls 3\n}\n", "reject"),
+    ("list:no-walls", cv("x", 1) + "harmonicWalls {\n  name w\n  colvars x\n}\n", "reject"),
+    ("value:negative-force-constant", _HARMK("centers 1\n  forceConstant -1"), None),
+    ("value:target-centers-and-k", _HARMK("centers 1\n  forceConstant 1\n  targetCenters 2\n  targetForceConstant 3\n  targetNumSteps 4"), "reject"),
+    ("walkers:no-registry", _METAK("multipleReplicas on\n  replicaID a"), "reject"),
+    ("walkers:update-frequency-0", _METAK("multipleReplicas on\n  replicaID a\n  replicasRegistry reg.txt\n  replicaUpdateFrequency 0"), "reject"),
+    ("walkers:no-replica-id", _METAK("multipleReplicas on\n  replicasRegistry reg.txt\n  replicaUpdateFrequency 2"), "reject"),
+    ("walkers:abf-shared-freq", _ABFK("outputFreq 2\n  shared on\n  sharedFreq 3"), "reject"),
+    ("walkers:abf-shared-freq-0", _ABFK("outputFreq 2\n  shared on\n  sharedFreq 0"), None),
+    ("abf:max-force-negative", _ABFK("maxForce -1"), "reject"),
+    ("abf:integrate-iterations-negative", _ABFK("integrate on\n  integrateMaxIterations -1"), None),
+    ("abf:integrate-tol-0", _ABFK("integrate on\n  integrateTol 0"), None),
+    ("abf:pabf-freq-negative", _ABFK("pABFintegrateFreq -1"), None),
+    ("opes:barrier-negative", _OPESK("barrier -1"), "reject"),
+    ("opes:epsilon-0", _OPESK("epsilon 0"), "reject"),
+    ("opes:cutoff-0", _OPESK("kernelCutoff 0"), "reject"),
+    ("opes:compression-negative", _OPESK("compressionThreshold -1"), "reject"),
+    ("opes:biasfactor-small", _OPESK("biasfactor 0.5"), "reject"),
+    ("opes:biasfactor-word", _OPESK("biasfactor abc"), "reject"),
+    ("opes:nlist-params", _OPESK("neighborList on\n  neighborListParameters 1 1"), "reject"),
+    ("opes:sigma-0", _OPESK("gaussianSigma 0"), None),
+    ("opes:sigma-min-too-large", _OPESK("gaussianSigmaMin 5"), "reject"),
+    ("meta:bias-temperature-missing", _METAK("wellTempered on"), "reject"),
+    ("meta:bias-temperature-0", _METAK("wellTempered on\n  biasTemperature 0"), None),
+    ("meta:hill-weight-negative", _METAK("hillWeight -1"), "reject"),
+    ("colvar:tsf-on-variable-0", cv("x", 1, "  timeStepFactor 0\n") + "harmonic {\n  name r\n  colvars x\n  centers 1\n  forceConstant 1\n}\n", None),
+    ("colvar:extended-no-fluctuation", cv("x", 1, "  extendedLagrangian on\n"), "reject"),
+    ("colvar:extended-time-constant-0", cv("x", 1, "  extendedLagrangian on\n  extendedFluctuation 0.1\n  extendedTimeConstant 0\n"), "reject"),
+    ("colvar:extended-damping-negative", cv("x", 1, "  extendedLagrangian on\n  extendedFluctuation 0.1\n  extendedLangevinDamping -1\n"), "reject"),
+    ("colvar:period-negative", cv("x", 1, "", "    period -1\n"), None),
+    ("colvar:duplicate-name", cv("zz0", 1), "reject"),
+    ("group:hbond-nonexistent-atom", "colvar {\n  name s\n  hBond {\n    acceptor 1000\n    donor 2\n  }\n}\n", "reject"),
+    ("group:hbond-valid", "colvar {\n  name s\n  hBond {\n    acceptor 1\n    donor 2\n  }\n}\n", "accept"),
+]
